@@ -530,6 +530,17 @@ fn gen_c03(tier: &Tier, rng: &mut Rng, _w: usize, nw: usize, out: &mut Vec<Case>
 }
 
 fn mutant(rng: &mut Rng, reals: &[Vec<u8>]) -> Vec<u8> {
+    if rng.chance(1, 30) {
+        // a well-formed file followed by a few identical stray bytes (padding-like)
+        let f = gfile(rng, 2, 3);
+        let plain = rng.chance(1, 2);
+        let mut x = encode_file(rng, &f, plain);
+        let b = *rng.pick(&[0x00u8, 0x00, 0x01, 0xff, 0x1b]);
+        for _ in 0..rng.range(1, 5) {
+            x.push(b);
+        }
+        return x;
+    }
     if rng.chance(1, 40) {
         // a message with a one-byte checksum field followed by a few stray bytes
         let (mut x, _) = short_crc_message(rng);
